@@ -72,6 +72,12 @@ theorem C20_parse_spec (fs : FS) (d fuel : Nat) (p : Path)
                       citations (events fs d p), canon, reports (events fs d p)⟩) :=
   ⟨_, parse_spec fs d fuel p hcl hle⟩
 
+/-- `demoFS` (Lemmas/AuxFile.lean, section 8): `t.aux` includes `u.aux` includes `v.aux` -/
+theorem C20_parse_spec_nonvacuous :
+    closedDepth demoFS 3 "t.aux".toList = true ∧ Spec.fatal (events demoFS 3 "t.aux".toList) = none ∧
+    (events demoFS 3 "t.aux".toList).length = 12 ∧ (reports (events demoFS 3 "t.aux".toList)).length = 4 := by
+  decide
+
 /-- Reading yields exactly the keys of the `\citation` lines, in reading order, comma lists
 expanded, repeats kept, `\@input` files read in place. -/
 theorem C20_citations_spec (fs : FS) (d fuel : Nat) (p : Path) (st : St)
@@ -134,6 +140,12 @@ theorem C20_reports_spec (fs : FS) (d fuel : Nat) (p : Path)
     (hcl : closedDepth fs d p = true) (hle : d ≤ fuel) :
     captured (parse fs fuel p) = reports (events fs d p) :=
   captured_parse fs d fuel p hcl hle
+
+theorem C20_reports_spec_nonvacuous :
+    closedDepth demoFS 3 "t.aux".toList = true ∧
+    (reports (events demoFS 3 "t.aux".toList)).map (fun r => (r.file, r.lineno)) =
+      [("u.aux".toList, some 1), ("t.aux".toList, some 5), ("t.aux".toList, some 6), ("t.aux".toList, some 7)] := by
+  decide
 
 /-- A second `\bibstyle` (`\bibdata`) — an event `e` of that kind with an earlier one among the
 events `pre` read before it, in whatever files — is reported with the file, line number and text of
